@@ -120,6 +120,27 @@ def d2_trees(ctx, which, nontrivial, limit, do_model=True):
     return complete
 
 
+def d2_content_oracles(ctx, which, nontrivial, do_model=True):
+    """every strategy x every input under DETERMINISTIC tests that look at the content (the usual shape of a real test:
+    'the file still contains this line'), not at the position in the run: keep the first / the last / a repeated atom,
+    an even length, matching braces"""
+    for (name, opts) in STRATS:
+        for kind, datas in INPUTS.items():
+            for data in datas:
+                lines = data.splitlines(keepends=True)
+                tokens = {lines[0].strip() or lines[0], lines[-1].strip() or lines[-1]}
+                for cand in (b"x", b"a", b"{", b"b"):
+                    if cand in data:
+                        tokens.add(cand)
+                oracles = [("has:" + common.enc_bytes(t), (lambda d, t=t: t in d)) for t in sorted(tokens)]
+                oracles.append(("even", lambda d: len(d) % 2 == 0))
+                oracles.append(("braces", lambda d: d.count(b"{") == d.count(b"}") and d.count(b"(") == d.count(b")")))
+                for oname, fn in oracles:
+                    def dec(k, disk, fn=fn):
+                        return "a" if k == 0 or fn(disk) else "r"
+                    d2_one(ctx, which, name, opts, kind, data, dec, nontrivial, do_model, label="D2-oracle:" + oname)
+
+
 def d2_random(ctx, which, nontrivial, n, do_model=True, aborts=True):
     rng = ctx.rng
     combos = [(s, k, d) for s in STRATS for k, ds in INPUTS.items() for d in ds]
